@@ -39,7 +39,141 @@ let handle (p : string) : string =
        let rt = match back with Ok c2 -> if cmd_eq_cpp c c2 && c2 = c then "1" else "0" | _ -> "0" in
        Printf.sprintf "packed=%s;rt=%s" (hex_of_bytes b) rt)
   | _ -> "bad-op"
+
+(* ---- round 2: every entry point *)
+let ep_s ~(status : bool) (packed_hex : string) (r : res) : string =
+  match r with
+  | Oob -> "OOB"
+  | Reject st -> if status then Printf.sprintf "rej%d" (int_of_n st) else "rej"
+  | Ok c ->
+    let rp = match pack c with Some b -> hex_of_bytes b | None -> "none" in
+    Printf.sprintf "ok/%s/%s" (cmd_s c) (if rp = packed_hex then "same" else rp)
+let all_entry_points (bs : n list) (packed_hex : string) (rq : cmd option) : string =
+  let e = ep_s packed_hex in
+  String.concat "" [
+    ";inf="; e ~status:false (inflate bs);
+    ";req="; e ~status:false (inflate_request bs);
+    ";dreq="; e ~status:false (inflate_disc_request bs);
+    ";dresp="; e ~status:false (inflate_disc_response bs);
+    ";resp="; e ~status:true (inflate_response rq bs);
+    ";respbs="; e ~status:true (inflate_response rq bs);
+    ";frame="; e ~status:true (from_frame rq (sTART_CODE :: bs));
+    ";framep="; e ~status:true (reply_of_raw true rq bs);
+    ";framepb="; e ~status:true (reply_of_raw true rq bs) ]
+let bl ((k, l) : bool * n list) = (if k then "1/" else "0/") ^ hex_of_bytes l
+let all_packers (o : opts) (c : cmd) : string =
+  let p = pack_o o c in
+  let base = match p with Some b -> hex_of_bytes b | None -> "none" in
+  let need = match p with Some b -> List.length b | None -> 0 in
+  String.concat "" [
+    "packed="; base;
+    ";rsz="; string_of_int need;
+    ";pbuf="; (match p with Some b -> "1/" ^ hex_of_bytes b | None -> "0/-");
+    ";psmall=0/"; string_of_int (if need > 0 then need - 1 else 600);
+    ";wr="; (match p with Some b -> "1/" ^ hex_of_bytes b | None -> "0/-");
+    ";papp="; bl (pack_append o [n_of_int 0xaa; n_of_int 0xcc; n_of_int 1] c);
+    ";pwsc="; bl (pack_with_start_code o [] c);
+    ";pwsc2="; bl (pack_with_start_code o [n_of_int 0x55] c) ]
+let parse_opts ssc ml ck : opts =
+  { o_ssc = n_of_int (ios ssc);
+    o_ml = (if ml = "-" then None else Some (n_of_int (ios ml)));
+    o_ck = (if ck = "-" then None else Some (n_of_int (ios ck))) }
+let cc_name (c : cmd) = string_of_int (int_of_n c.c_cc)
+let pid_class (c : cmd) =
+  let p = int_of_n c.c_pid in if p >= 1 && p <= 3 then "disc-pid" else if p = 0x20 then "queued" else "pid"
+let handle2 (p : string) : (string * string) option =
+  match split p with
+  | ["rt"; _; cs] ->
+    let c = parse_cmd cs in
+    let r = all_packers default_opts c in
+    (match pack c with
+     | None -> Some (r, "rt:refused")
+     | Some b ->
+       let (o2, c2) = duplicate (default_opts, c) in
+       let dup = match pack_o o2 c2 with Some d -> hex_of_bytes d | None -> "-" in
+       let eqback = match inflate b with
+         | Ok c2 -> bool01 (cmd_eq_cpp c c2 && cmd_eq_cpp c2 c) | _ -> "none" in
+       let u8 x = n_of_int (x land 255) in
+       let hexo c = match pack c with Some d -> hex_of_bytes d | None -> "-" in
+       let sets =
+         if is_request_cc c.c_cc then
+           ";isdub=" ^ bool01 (is_dub c) ^ ";set=" ^
+           hexo (set_request c c.c_dst (u8 (int_of_n c.c_tn + 1)) (u8 (int_of_n c.c_port + 3)))
+         else ";set=" ^ hexo (set_response c c.c_src (u8 (int_of_n c.c_tn + 1))) in
+       Some (r ^ all_entry_points b (hex_of_bytes b) None ^ ";eqback=" ^ eqback ^ ";dup=" ^ dup ^ sets,
+             Printf.sprintf "rt:cc%s:%s:len%d" (cc_name c) (pid_class c) (List.length c.c_data)))
+  | ["packo"; _; cs; ssc; ml; ck] ->
+    let c = parse_cmd cs in
+    let o = parse_opts ssc ml ck in
+    let r = all_packers o c in
+    (match pack_o o c with
+     | None -> Some (r, "packo:refused")
+     | Some b ->
+       let (o2, c2) = duplicate (o, c) in
+       let dup = match pack_o o2 c2 with Some d -> hex_of_bytes d | None -> "-" in
+       let acc = match inflate b with Ok _ -> "accepted" | _ -> "rejected" in
+       Some (r ^ all_entry_points b "-" None ^ ";dup=" ^ dup,
+             Printf.sprintf "packo:%s%s%s:%s" (if ssc = "1" then "" else "ssc") (if ml = "-" then "" else "ml")
+               (if ck = "-" then "" else "ck") acc))
+  | ["mkf"; ctor; prepend; rq; h] ->
+    let pre = prepend = "1" in
+    let raw = bytes_of_hex h in
+    let rqo = if rq = "-" then None else Some (parse_cmd rq) in
+    let fd = mk_frame pre raw in
+    let rep = reply_of_raw pre rqo raw in
+    let first = match raw with [] -> "empty" | x :: _ ->
+      if x = sTART_CODE then "firstCC" else if x = sUB_START_CODE then "first01" else "firstXX" in
+    Some (Printf.sprintf "fd=%s;tz=1;reply=%s" (hex_of_bytes fd) (ep_s ~status:true "-" rep),
+          Printf.sprintf "mkf:ctor%s:pre%s:%s:%s" ctor prepend first
+            (match rep with Ok _ -> "accepted" | _ -> "rejected"))
+  | "build" :: _ :: cs :: kind :: args ->
+    let c = parse_cmd cs in
+    let bo, rq = match kind, args with
+      | "data", [d; t; mc] -> response_from_data c (bytes_of_hex d) (n_of_int (ios t)) (n_of_int (ios mc)), Some c
+      | "pid", [pid; d; t; mc] ->
+        response_with_pid c (n_of_int (ios pid)) (bytes_of_hex d) (n_of_int (ios t)) (n_of_int (ios mc)), Some c
+      | "nack", [r; mc] -> nack_request c (n_of_int (ios r)) (n_of_int (ios mc)), Some c
+      | "nack0", [r] -> nack_request c (n_of_int (ios r)) N0, Some c
+      | "ack0", [] -> response_from_data c [] rDM_ACK N0, Some c
+      | "nackr", [r] -> Some (nack_response c (n_of_int (ios r))), None
+      | _ -> failwith "bad build" in
+    (match bo with
+     | None -> Some ("built=none", "build:" ^ kind ^ ":none")
+     | Some b ->
+       (match pack b with
+        | None -> Some ("built=" ^ cmd_s b ^ ";packed=none", "build:" ^ kind ^ ":toolong")
+        | Some bs ->
+          let m = match inflate_response rq bs with Ok _ -> "matched" | _ -> "unmatched" in
+          Some ("built=" ^ cmd_s b ^ ";packed=" ^ hex_of_bytes bs ^ all_entry_points bs (hex_of_bytes bs) rq,
+                "build:" ^ kind ^ ":" ^ m)))
+  | "disc" :: kind :: args ->
+    let nn s = n_of_int (ios s) in
+    let port s = if s = "-" then n_of_int 1 else nn s in
+    let c = match kind, args with
+      | "dub", [src; lo; up; tn; p] -> new_dub (n_of_string src) (n_of_string lo) (n_of_string up) (nn tn) (port p)
+      | "mute", [src; dst; tn; p] -> new_mute (n_of_string src) (n_of_string dst) (nn tn) (port p)
+      | "unmute", [src; dst; tn; p] -> new_unmute (n_of_string src) (n_of_string dst) (nn tn) (port p)
+      | _ -> failwith "bad disc" in
+    let r = "built=" ^ cmd_s c ^ ";isdub=" ^ bool01 (is_dub c) ^ ";" ^ all_packers default_opts c in
+    (match pack c with
+     | None -> Some (r, "disc:refused")
+     | Some b -> Some (r ^ all_entry_points b (hex_of_bytes b) None, "disc:" ^ kind))
+  | ["null"; l] ->
+    let st = int_of_n (verify_null (n_of_int (ios l))) in
+    Some (Printf.sprintf "inf=rej;req=rej;dreq=rej;dresp=rej;resp=rej%d" st, "null:" ^ string_of_int st)
+  | ["eq"; _; x; _; y] ->
+    let x = parse_cmd x and y = parse_cmd y in
+    let e = cmd_eq_cpp x y in
+    Some ("eq=" ^ bool01 e ^ ";eqsym=" ^ bool01 (cmd_eq_cpp y x), "eq:" ^ bool01 e)
+  | _ -> None
+let prefix_keys (r : string) (pre : string) : string =
+  String.concat ";" (List.map (fun kv -> pre ^ kv) (String.split_on_char ';' r))
 let handle_c (p : string) : string =
+  match handle2 p with
+  | Some (r, k) ->
+    let builder = String.length p >= 5 && (String.sub p 0 5 = "build" || String.sub p 0 5 = "disc ") in
+    (if builder then prefix_keys r "b_" else r) ^ ";class=" ^ k
+  | None ->
   let r = handle p in
   let op = match split p with o :: _ -> o | [] -> "?" in
   let k = if String.length r >= 5 && String.sub r 0 5 = "st=ok" then "accepted"
